@@ -60,7 +60,7 @@ PAD_SMALL = [(0, 6), (1, 6), (2, 4), (3, 3), (7, 2), (30, 2), (120, 2), (254, 1)
 PAD_BIG = [(2000, 3), (9000, 2), (32700, 2), (32766, 1), (32767, 1), (32768, 1), (33000, 1), (50000, 1), (63000, 1)]
 FILL = [(0, 6), (1, 5), (2, 4), (5, 3), (20, 2), (42, 1), (43, 1), (60, 1), (200, 1)]
 FAILS = [("error", 5), ("div", 5), ("index", 3), ("longexpr", 3), ("longarr", 2), ("longwrap", 1), ("multi", 3), ("funlit", 3),
-         ("funlit2", 2), ("funlitml", 2), ("macrodef", 2), ("macrouse", 2), ("strml", 2), ("ehfail", 2)]
+         ("funlit2", 2), ("funlitml", 2), ("macrodef", 2), ("macrouse", 2), ("strml", 2), ("ehfail", 2), ("cstack", 3)]
 CALLS = [("ret", 8), ("assign", 3), ("funlit", 3), ("funlit2", 2), ("funlitml", 2), ("catch", 2), ("multi", 2)]
 CALLS_PLAIN = [("ret", 8), ("assign", 3), ("catch", 2), ("multi", 2)]
 # calls of a function of the same object that do not go through a local call instruction: apply_low (call_other,
@@ -224,6 +224,9 @@ class Gen:
             err = "c18_eh_fail"
         elif kind == "div":
             src.text("  x_ = 10 / k;\n")
+        elif kind == "cstack":
+            # the efun call_stack() (names, programs, objects of the active frames) evaluated in the failing frame
+            src.text("  x_ = c18_cs(call_stack(2), call_stack(0), call_stack(1)) / k;\n")
         elif kind == "index":
             src.text("  x_ = ({ 1, 2 })[k + 5];\n")
         elif kind == "longexpr":
@@ -981,7 +984,7 @@ class C18(Prop):
     id = "C18"
     no_shrink = True   # cases are reported exactly as generated (lines depend on each other)
     title = "Runtime errors are reported at the right file and line with a correct trace"
-    lean_modules = ["NV.C18.Props", "NV.C18.PropsCompile", "NV.C18.PropsDump", "NV.C18.PropsOracle", "NV.C18.PropsInit", "NV.C18.PropsLex", "NV.C18.PropsBound", "NV.C18.PropsAccept", "NV.C18.PropsJ5", "NV.C18.PropsNode", "NV.C18.Witness", "NV.C18.SourceTexts",
+    lean_modules = ["NV.C18.Props", "NV.C18.PropsCompile", "NV.C18.PropsDump", "NV.C18.PropsOracle", "NV.C18.PropsInit", "NV.C18.PropsLex", "NV.C18.PropsBound", "NV.C18.PropsAccept", "NV.C18.PropsJ5", "NV.C18.PropsNode", "NV.C18.PropsCallStack", "NV.C18.Witness", "NV.C18.SourceTexts",
                     "NV.C18.SourceTexts2"]
     theorems = ["NV.C18.line_roundtrip_raw", "NV.C18.line_roundtrip", "NV.C18.long_statement_ok",
                 "NV.C18.file_roundtrip", "NV.C18.file_roundtrip_ids", "NV.C18.file_roundtrip_partial",
@@ -992,7 +995,7 @@ class C18(Prop):
                 "NV.C18.compile_roundtrip", "NV.C18.abs_pos", "NV.C18.abs_mono",
                 "NV.C18.frame_kinds_exhaustive", "NV.C18.dump_trace_matches_svalue_trace", "NV.C18.dtText_spec",
                 "NV.C18.locText_of_ok", "NV.C18.dump_trace_args_lines", "NV.C18.dump_trace_ret_heart_beat",
-                "NV.C18.lex_push_agrees", "NV.C18.lex_pop_agrees", "NV.C18.lex_final_agrees", "NV.C18.node_line_agrees", "NV.C18.translate_eq_positions", "NV.C18.init_block_roundtrip", "NV.C18.placeNotes_runFrom", "NV.C18.findRun_append_out", "NV.C18.file_roundtrip_global_include", "NV.C18.compile_roundtrip_accepted", "NV.C18.lines_accepted_fit", "NV.C18.code_accepted_fit", "NV.C18.file_id_scan_agrees", "NV.C18.fileIdFor_uses_scan", "NV.C18.model_never_reuses_ids", "NV.C18.model_never_reuses_ids_N", "NV.C18.node_line_pending", "NV.C18.node_line_noted", "NV.C18.scan_unbounded", "NV.C18.scan_bound_harmless", "NV.C18.size_field_exact", "NV.C18.psizeRejects_iff", "NV.C18.pass2_agrees", "NV.C18.source_statements_agree2"]
+                "NV.C18.lex_push_agrees", "NV.C18.lex_pop_agrees", "NV.C18.lex_final_agrees", "NV.C18.node_line_agrees", "NV.C18.translate_eq_positions", "NV.C18.init_block_roundtrip", "NV.C18.placeNotes_runFrom", "NV.C18.findRun_append_out", "NV.C18.file_roundtrip_global_include", "NV.C18.compile_roundtrip_accepted", "NV.C18.lines_accepted_fit", "NV.C18.code_accepted_fit", "NV.C18.file_id_scan_agrees", "NV.C18.fileIdFor_uses_scan", "NV.C18.model_never_reuses_ids", "NV.C18.model_never_reuses_ids_N", "NV.C18.node_line_pending", "NV.C18.node_line_noted", "NV.C18.call_stack_is_reversed_trace", "NV.C18.callFrames_eq", "NV.C18.scan_unbounded", "NV.C18.scan_bound_harmless", "NV.C18.size_field_exact", "NV.C18.psizeRejects_iff", "NV.C18.pass2_agrees", "NV.C18.source_statements_agree2"]
     witness_theorems = ["NV.C18.file_roundtrip_Full_false", "NV.C18.line_roundtrip_Full_false",
                         "NV.C18.reinclude_wrong", "NV.C18.reinclude_repaired", "NV.C18.wide_wrong", "NV.C18.signed_short_wrong",
                         "NV.C18.init_block_only_noted", "NV.C18.init_replay", "NV.C18.heart_beat_ret_before_fix", "NV.C18.bounded_scan_fails_above_64k"]
@@ -1027,7 +1030,8 @@ class C18(Prop):
                   "of program_file_id with its transcribed start, step, sizeof divisor and cast), line_roundtrip, long_statement_ok, init_block_roundtrip, "
                   "file_roundtrip for all include layouts (repeated and recursive includes, global include), "
                   "translate_eq_positions (decoder = oracle positions on every line of every table), trace_order, "
-                  "apply_frame_named, dump_trace_matches_svalue_trace; tied to the C code on every run: loop guards, "
+                  "apply_frame_named, dump_trace_matches_svalue_trace, call_stack_is_reversed_trace (efun call_stack), "
+                  "node_line_pending (i_generate_node); tied to the C code on every run: loop guards, "
                   "program_size test, second pass, widths and frame kinds are transcribed from the source, 22 source regions "
                   "are compared as text; the model encoder replays the compiler's hook events and must reproduce the real "
                   "tables byte for byte, the model decoder must agree with the real get_line_number on every code offset and "
@@ -1504,8 +1508,14 @@ class C18(Prop):
             gen("lines%d" % n, fail_kind="div", depth=0, nchild=1, nbase=0, binary=False, prepad=("n", n))
         gen("lines40000-inc", fail_kind="error", depth=2, nchild=3, nbase=0, binary=True, prepad=("c", 40000))
         gen("fillers3000", fail_kind="index", depth=1, nchild=2, nbase=0, binary=False, prepad=("n", 1))
-        for k in ("funlit", "funlit2", "funlitml", "longwrap", "longarr", "multi", "macrodef", "macrouse", "strml"):
+        for k in ("funlit", "funlit2", "funlitml", "longwrap", "longarr", "multi", "macrodef", "macrouse", "strml", "cstack"):
             gen("kind-" + k, fail_kind=k, depth=1, nchild=2, nbase=1, binary=True)
+        # efun call_stack() in the failing frame: through catch / function pointers / simul_efun / another object / heart beat
+        for i, kw in enumerate((dict(depth=1, nchild=4, nbase=2, bdepth=1), dict(depth=0, nchild=3, nbase=1, other=True),
+                                dict(depth=2, nchild=4, nbase=0, via="hb", rep=2), dict(depth=1, nchild=3, nbase=2, override=True, binary=True),
+                                dict(depth=0, nchild=4, nbase=0, via="clone", rep=2))):
+            kw.setdefault("binary", False)
+            gen("call-stack-%d" % i, fail_kind="cstack", **kw)
         # function literals (plain, nested, spanning lines) whose code sits in an INCLUDED file: deepest include, an include
         # that is resumed behind a nested one, the include of an inherited program; fresh and from the saved binary
         for i, (k, kw) in enumerate((("funlit", dict(depth=2, nchild=2, nbase=0, fail_slot=2)), ("funlit2", dict(depth=3, nchild=3, nbase=0, fail_slot=3)),
